@@ -44,9 +44,30 @@ ColTerms(val, dat, n) == FoldLeft(LAMBDA acc, i : LET r == (i-1) \div n c == (i-
 SqTerms(val, dat, n) == FoldLeft(LAMBDA acc, i : acc + SquareAt(val, dat, n, (i-1) \div n, (i-1) % n), 0, Range1(n*n))
 \* 10 per full 5% step: floor(|dark/n^2 - 1/2| / 0.05) = floor(|2 dark - n^2| * 10 / n^2); n^2 is odd so no ratio sits on a step
 DarkTerm(val, n) == LET dark == FoldLeft(LAMBDA acc, i : acc + val[i], 0, Range1(n*n)) IN 10 * ((AbsI(2*dark - n*n) * 10) \div (n*n))
-Penalty(val, dat, n) == RowTerms(val, dat, n) + ColTerms(val, dat, n) + SqTerms(val, dat, n) + DarkTerm(val, n)
+\* the documented penalty, per-cell closed form (reference formulation)
+PenaltyRef(val, dat, n) == RowTerms(val, dat, n) + ColTerms(val, dat, n) + SqTerms(val, dat, n) + DarkTerm(val, n)
+
+\* The same penalty as one scan per line (what TLC evaluates; MC_Lemmas checks it equal to PenaltyRef):
+\* state = <<score, run length, previous value, 7-bit window, number of consecutive encoding-region modules in the window>>
+LineStep(st, v, d) ==
+  IF ~d THEN <<st[1], 0, 0, 0, 0>>
+  ELSE LET run == IF st[2] > 0 /\ st[3] = v THEN st[2] + 1 ELSE 1
+           w == (2 * st[4] + v) % 128
+           wn == IF st[5] >= 7 THEN 7 ELSE st[5] + 1
+       IN <<st[1] + (IF run = 5 THEN 3 ELSE IF run > 5 THEN 1 ELSE 0) + (IF wn = 7 /\ w = 93 THEN 40 ELSE 0), run, v, w, wn>>
+LineScore(val, dat, first, step, n) ==
+  FoldLeft(LAMBDA st, k : LineStep(st, val[first + (k-1)*step], dat[first + (k-1)*step]), <<0, 0, 0, 0, 0>>, Range1(n))[1]
+LineTerms(val, dat, n) == FoldLeft(LAMBDA acc, k : acc + LineScore(val, dat, (k-1)*n + 1, 1, n) + LineScore(val, dat, k, n, n), 0, Range1(n))
+Penalty(val, dat, n) == LineTerms(val, dat, n) + SqTerms(val, dat, n) + DarkTerm(val, n)
 DataIndicator(lay) == TLCEval([i \in 1..lay.n*lay.n |-> lay.reg[i] = 0])
 
+\* scan formulation = per-cell formulation, on V1 and V2 layouts filled with three different patterns under all eight masks
+PenaltyLemma(lay) == LET n == lay.n dat == DataIndicator(lay) IN
+  \A k \in 0..2 : \A m \in 0..7 :
+     LET val == TLCEval([i \in 1..n*n |-> IF lay.reg[i] = 0
+                                         THEN (IF MaskCond(m, (i-1) \div n, (i-1) % n) THEN 1 ELSE 0 + (IF ((i * (k + 3)) % 7) < 3 THEN 1 ELSE 0)) % 2
+                                         ELSE IF (i % (k + 2)) = 0 THEN 1 ELSE 0])
+     IN Penalty(val, dat, n) = PenaltyRef(val, dat, n)
 MaskLemmas ==
   \* the eight conditions are pairwise different on the 12 x 12 tile that contains every period
   /\ \A a, b \in 0..7 : a < b => \E r \in 0..11, c \in 0..11 : MaskCond(a, r, c) # MaskCond(b, r, c)
